@@ -99,7 +99,9 @@ def loop_rules(ctx, rep, impl):
         esc = b.reach_v(avoid_blocks=gblocks, avoid_edges=off_edges, via=dbb, avoid_after=dblocks)
         rep.check("R9.2", "%s:always-when-enabled:%d" % (impl, n), not (set(oks) & esc),
                   "with verification enabled a packet can be returned without passing the gate", b.loc(dt["line"]), sample={"impl": impl, "decode_block": dbb})
-    plumbing = ("Try::branch", "Future::poll", "new_unchecked", "into_future", "get_context", "{closure#0}")
+    # value-preserving plumbing: the error (if any) that comes out is the one that went in
+    plumbing = ("Try::branch", "Future::poll", "new_unchecked", "into_future", "get_context", "{closure#0}",
+                "Result::<T, E>::map", "Result::<T, E>::map_err", "convert::Into::into", "convert::From::from")
 
     def direct_sources(o, seen, depth=0):
         """the call(s) whose error value this residual carries (looking through `?`/await plumbing and phis)"""
